@@ -848,10 +848,13 @@ func (fr *Frame) atStore(st *State, p Term, pos token.Pos) {
 	}
 	for tname, cls := range top.spec.AtStores {
 		// field ids of the struct type
-		var fids []int
+		var fids, arrFids []int // arrFids: fields of array type (only those can own an element address)
 		for id, fi := range fc.w.fidRev {
 			if fi.owner == tname || strings.HasSuffix(fi.owner, "_"+tname) {
 				fids = append(fids, id)
+				if _, isArr := fi.ftype.Underlying().(*types.Array); isArr {
+					arrFids = append(arrFids, id)
+				}
 			}
 		}
 		if len(fids) == 0 {
@@ -865,9 +868,9 @@ func (fr *Frame) atStore(st *State, p Term, pos token.Pos) {
 				break
 			}
 		}
-		inSet := func(e string) string {
+		inSetOf := func(e string, set []int) string {
 			var alts []string
-			for _, f := range fids {
+			for _, f := range set {
 				alts = append(alts, fmt.Sprintf("(= %s %d)", e, f))
 			}
 			if len(alts) == 1 {
@@ -875,6 +878,8 @@ func (fr *Frame) atStore(st *State, p Term, pos token.Pos) {
 			}
 			return "(or " + strings.Join(alts, " ") + ")"
 		}
+		inSet := func(e string) string { return inSetOf(e, fids) }
+		inArrSet := func(e string) string { return inSetOf(e, arrFids) }
 		type cand struct {
 			cond  Term
 			owner Term
@@ -899,16 +904,18 @@ func (fr *Frame) atStore(st *State, p Term, pos token.Pos) {
 						cands = append(cands, cand{tBool(true), arr.Sh.Base})
 					}
 				}
-			} else if arr.Sh == nil {
-				c := mk(fmt.Sprintf("(and (is_PField %s) %s)", arr.S, inSet("(pf_fid "+arr.S+")")), SBool, nil)
+			} else if arr.Sh == nil && len(arrFids) > 0 {
+				c := mk(fmt.Sprintf("(and (is_PField %s) %s)", arr.S, inArrSet("(pf_fid "+arr.S+")")), SBool, nil)
 				cands = append(cands, cand{c, mk(fmt.Sprintf("(pf_base %s)", arr.S), SPtr, nil)})
 			}
 		case p.Sh != nil && p.Sh.Kind == 'o':
 		default:
 			c1 := mk(fmt.Sprintf("(and (is_PField %s) %s)", p.S, inSet("(pf_fid "+p.S+")")), SBool, nil)
 			cands = append(cands, cand{c1, mk(fmt.Sprintf("(pf_base %s)", p.S), SPtr, nil)})
-			c2 := mk(fmt.Sprintf("(and (is_PElem %s) (is_PField (pe_arr %s)) %s)", p.S, p.S, inSet("(pf_fid (pe_arr "+p.S+"))")), SBool, nil)
-			cands = append(cands, cand{c2, mk(fmt.Sprintf("(pf_base (pe_arr %s))", p.S), SPtr, nil)})
+			if len(arrFids) > 0 {
+				c2 := mk(fmt.Sprintf("(and (is_PElem %s) (is_PField (pe_arr %s)) %s)", p.S, p.S, inArrSet("(pf_fid (pe_arr "+p.S+"))")), SBool, nil)
+				cands = append(cands, cand{c2, mk(fmt.Sprintf("(pf_base (pe_arr %s))", p.S), SPtr, nil)})
+			}
 		}
 		for _, cd := range cands {
 			owner := cd.owner
